@@ -33,7 +33,7 @@ func init() {
 		ID:    "C06",
 		Level: "exploration",
 		Rule: "seeded target models (2..4 services and the networks/volumes/secrets/configs they use) partitioned into a main file and 1..3 included files (nesting depth <= 3; sub-directories, the parent's directory, a sibling directory; short and long include syntax, path as string or list; with/without project_directory; .env in the included project directory, declared env_file, or none); " +
-			"included files use variables defined only in the parent environment, only in their own env file, in both (parent must win), in an outer and an inner included env file (outer must win), or nowhere (default operators), and relative paths; the project is compared with the one loaded from the pasted single document. " +
+			"included files use variables defined only in the parent environment, only in their own env file, in both (parent must win, also when the parent's value is empty), in an outer and an inner included env file (outer must win), or nowhere (default operators), and relative paths; the project is compared with the one loaded from the pasted single document. " +
 			"Negative cases: a resource of each of the five kinds redefined with one attribute changed (in the main file or in a sibling include) must fail, include cycles of length 1..3 must fail; positive: the same file included through two routes must load and equal the pasted model. " +
 			"A positive case is non-trivial when at least one included file holds a resource that uses a variable or a relative path and both sides load; distinct = distinct distributed inputs.",
 		Assumptions: []string{
@@ -277,8 +277,8 @@ func build(s *core.Shard, i int) *Case {
 		for vi, tok := range toks {
 			name := fmt.Sprintf("N%d_VAR%d", n.id, vi)
 			own := envOf(n)
-			mode := r.Intn(5)
-			if own == nil && (mode == 1 || mode == 2) {
+			mode := r.Intn(6)
+			if own == nil && (mode == 1 || mode == 2 || mode == 5) {
 				mode = 0
 			}
 			expr := "${" + name + "}"
@@ -293,6 +293,10 @@ func build(s *core.Shard, i int) *Case {
 			case 2: // both: the parent wins
 				topEnv[name] = tok
 				own[name] = "wrong-from-included-env"
+			case 5: // the parent defines it as empty: it is defined, the included env file must not replace it
+				topEnv[name] = ""
+				own[name] = "wrong-from-included-env-over-empty-parent-value"
+				expr = "${" + name + ":-" + tok + "}"
 			case 3: // nobody: default operator
 				expr = "${" + name + ":-" + tok + "}"
 			case 4: // an outer included project's env file and this one: the outer one is "the parent environment" here
@@ -566,7 +570,11 @@ func build(s *core.Shard, i int) *Case {
 		changeOne(g, changed, pick.kind)
 		def := decomp.OM{{K: pick.name, V: changed.Render()}}
 		c.Detail = pick.kind
-		if r.Intn(2) == 0 {
+		if on := owner[*pick]; on.depth >= 2 && r.Intn(2) == 0 {
+			// the conflict sits below the top level: an included file redefines a resource of a file it includes itself
+			c.Detail += "/included-vs-its-own-include"
+			extraDefs[on.parent] = map[string]decomp.OM{pick.kind: def}
+		} else if r.Intn(2) == 0 {
 			c.Detail += "/main-vs-included"
 			extraDefs[0] = map[string]decomp.OM{pick.kind: def}
 		} else {
